@@ -174,7 +174,10 @@ ERRNOS = {
 
 class _SinkMixin:
     def _sim_init(self, ctx=None, fail_at: int | None = None, partial: float = 0.0,
-                  err: str = "ENOSPC", label: str = "sink"):
+                  err: str = "ENOSPC", label: str = "sink", yield_at: dict | None = None):
+        # write ordinal -> callback: the writer "blocks" in that write and the scheduler runs
+        # another simulated caller before the write proceeds (I/O is where threads switch)
+        self.sim_yield_at = dict(yield_at or {})
         self.sim_ctx = ctx
         self.sim_trace: list[tuple[int, int]] = []  # (position, nbytes) of each good write
         self.sim_writes = 0
@@ -188,6 +191,10 @@ class _SinkMixin:
     def _sim_write(self, data, length: int, do_write, do_prefix):
         k = self.sim_writes
         self.sim_writes = k + 1
+        if self.sim_yield_at:
+            cb = self.sim_yield_at.pop(k, None)
+            if cb is not None:
+                cb(k)
         if self.sim_fail_at is not None and k >= self.sim_fail_at:
             # the medium stays full: this and every later write fails
             if k == self.sim_fail_at and self.sim_partial > 0 and length > 1:
